@@ -35,6 +35,28 @@ var c15Alphabet = []string{"a", "\x00", "<", ">", " ", "\t", "\r", "\n", "/", "√
 // space character (U+4E0A, U+4E0D, U+4E09, U+2020, U+010D, U+0120, U+2009) or that Unicode calls a space
 var c15Wide = append(append([]string{}, c15Alphabet...), "‰∏ä", "‰∏ç", "‰∏â", "‚Ä†", "ƒç", "ƒ†", "\u2009", "\u3000", "\u0085", "\ufeff", "\U0001F600")
 
+// c15Forms: a block whose body ends in a comment; mid is the closing or continuing tag behind the comment,
+// close what follows the text behind it. innerShown: the body text before the comment is rendered.
+type c15Form struct {
+	name, open, mid, close string
+	innerShown             bool
+}
+
+var c15Forms = []c15Form{
+	{"if-end", "{if true}", "{/if}", "", true},
+	{"if-else", "{if false}", "{else}", "{/if}", false},
+	{"if-elseif", "{if false}", "{elseif true}", "{/if}", false},
+	{"else-end", "{if false}no{else}", "{/if}", "", true},
+	{"foreach-end", "{foreach $i in [1]}", "{/foreach}", "", true},
+	{"foreach-ifempty", "{foreach $i in []}", "{ifempty}", "{/foreach}", false},
+	{"for-end", "{for $i in range(1)}", "{/for}", "", true},
+	{"switch-case", "{switch 2}{case 1}", "{case 2}", "{/switch}", false},
+	{"switch-default", "{switch 2}{case 1}", "{default}", "{/switch}", false},
+	{"switch-end", "{switch 1}{case 1}", "{/switch}", "", true},
+	{"msg-end", "{msg desc=\"d\"}", "{/msg}", "", true},
+	{"log-end", "{log}", "{/log}", "", false},
+}
+
 // neighbours: what stands before and after the run inside the template, and what they render to
 var c15Neighbors = []struct{ name, before, after, outBefore, outAfter string }{
 	{"template-edges", "", "", "", ""},
@@ -181,13 +203,18 @@ func checkC15(c C15Case) Verdict {
 				src.WriteString(" // CMT" + p + "\r\n")
 			case "block":
 				src.WriteString("/* CMT" + p + " */")
+			case "blockdoc":
+				// a block comment that begins with two stars (inside a template this is no soydoc)
+				src.WriteString("/** CMT" + p + " */")
+			case "blockempty":
+				src.WriteString("/**/")
 			case "blocktight":
 				// nothing between the comment's last character and its end: /* CMT**/, /*CMT x*/
 				src.WriteString("/* CMT" + p + "*/")
 			default:
 				src.WriteString(p)
 				stripped.WriteString(p)
-				if strings.Contains(p, "://") || strings.HasPrefix(p, "//") {
+				if strings.Contains(p, "://") || strings.HasPrefix(p, "//") || strings.HasPrefix(p, "\x00//") {
 					verbatim = append(verbatim, p)
 				}
 			}
@@ -224,6 +251,46 @@ func checkC15(c C15Case) Verdict {
 			}
 		}
 		return ok(true, "L2:"+nb.name)
+	case "L2b":
+		// Runs: inner text, comment (as source), text after the tag; Kinds[0]: the tags around.
+		// A comment that is the last thing before a closing or continuing tag, and the text behind that
+		// tag: the tag ends the text run the comment stands in, so the text behind it is normalised as any
+		// text between two tags.
+		if len(c.Runs) != 3 || len(c.Kinds) != 1 {
+			return excluded("malformed case")
+		}
+		var form *c15Form
+		for i := range c15Forms {
+			if c15Forms[i].name == c.Kinds[0] {
+				form = &c15Forms[i]
+			}
+		}
+		if form == nil {
+			return excluded("unknown form")
+		}
+		inner, cmt, after := c.Runs[0], c.Runs[1], c.Runs[2]
+		body := nb.before + form.open + inner + cmt + form.mid + after + form.close + nb.after
+		outs, err := renderBodies([]string{body})
+		if err != nil {
+			return bad(true, "template %q rejected: %v", body, err)
+		}
+		out := outs[0]
+		wantAfter := ref.NormalizeText(after)
+		if form.innerShown {
+			tail := wantAfter + nb.outAfter
+			if !strings.HasSuffix(out, tail) || !strings.HasPrefix(out, nb.outBefore) || len(out) < len(tail)+len(nb.outBefore) {
+				return bad(true, "the text %q behind the tag that follows a comment is rendered differently from text between two tags: source %q renders %q, which should end in %q", after, body, out, tail)
+			}
+			strip := func(s string) string {
+				return strings.Join(strings.FieldsFunc(s, func(r rune) bool { return r == ' ' || r == '\t' || r == '\r' || r == '\n' }), "")
+			}
+			if got := strip(out[len(nb.outBefore) : len(out)-len(tail)]); got != strip(inner) || strings.Contains(out, "CMT") {
+				return bad(true, "source %q renders %q: the block's text should be %q (white space aside) and nothing of the comment", body, out, strip(inner))
+			}
+		} else if want := nb.outBefore + wantAfter + nb.outAfter; out != want {
+			return bad(true, "the text %q behind the tag that follows a comment is rendered differently from text between two tags: source %q renders %q, want %q", after, body, out, want)
+		}
+		return ok(true, "L2b:"+form.name)
 	case "L3":
 		bodies := make([]string, len(c.Runs))
 		wants := make([]string, len(c.Runs))
@@ -232,6 +299,10 @@ func checkC15(c C15Case) Verdict {
 				name := r[5:]
 				bodies[i] = nb.before + "{" + name + "}" + nb.after
 				wants[i] = nb.outBefore + map[string]string{"sp": " ", "nil": "", "lb": "{", "rb": "}", `\n`: "\n", `\r`: "\r", `\t`: "\t"}[name] + nb.outAfter
+			} else if strings.HasPrefix(r, "dbl:") {
+				// the block written with double braces: only {{/literal}} ends it, {/literal} is text
+				bodies[i] = nb.before + "{{literal}}" + r[4:] + "{{/literal}}" + nb.after
+				wants[i] = nb.outBefore + r[4:] + nb.outAfter
 			} else {
 				bodies[i] = nb.before + "{literal}" + r + "{/literal}" + nb.after
 				wants[i] = nb.outBefore + r + nb.outAfter
@@ -278,14 +349,14 @@ func genC15(t *rapid.T) C15Case {
 	case 5, 6, 7:
 		c.Level = "L2"
 		for i, n := 0, rapid.IntRange(1, 6).Draw(t, "npieces"); i < n; i++ {
-			k := rapid.SampledFrom([]string{"text", "text", "line", "block", "slashtext", "blocktight", "line-cr", "line-crlf"}).Draw(t, "kind")
+			k := rapid.SampledFrom([]string{"text", "text", "line", "block", "slashtext", "blocktight", "line-cr", "line-crlf", "blockdoc", "blockempty"}).Draw(t, "kind")
 			switch k {
 			case "slashtext":
 				// text that begins with "//" directly after a tag, a block comment or a non-whitespace
 				// character is not a comment
 				k = "text"
-				p := rapid.SampledFrom([]string{"//cdn.example.com/a.js", "//x", "///y"}).Draw(t, "slashtext")
-				if i > 0 {
+				p := rapid.SampledFrom([]string{"//cdn.example.com/a.js", "//x", "///y", "\x00//n"}).Draw(t, "slashtext")
+				if i > 0 && p[0] != 0 { // (a NUL is a character like any other: "//" behind it begins no comment)
 					prev := c.Runs[i-1]
 					if strings.HasPrefix(c.Kinds[i-1], "line") || c.Kinds[i-1] == "text" && (prev == "" || strings.ContainsAny(prev[len(prev)-1:], " \t\r\n")) {
 						p = "z" + p
@@ -293,7 +364,11 @@ func genC15(t *rapid.T) C15Case {
 				}
 				c.Runs = append(c.Runs, p)
 			case "text":
-				c.Runs = append(c.Runs, rapid.SampledFrom([]string{"a", "b c", " d ", "\n", "  \n  ", "<p>", "http://x.y/z", "a//b", "e\n", "\nf", "x:// y", "<br>\n", " ", "√©", "1/2", "ftp://h/ /p", "‰∏ä", "‰∏ç\n‰∏â", "a‚Ä†//b", "ƒç//z", "\u2009", "x‰∏ä//y", "‰∏â/ x", "\u3000"}).Draw(t, "text"))
+				c.Runs = append(c.Runs, rapid.SampledFrom([]string{"a", "b c", " d ", "\n", "  \n  ", "<p>", "http://x.y/z", "a//b", "e\n", "\nf", "x:// y", "<br>\n", " ", "√©", "1/2", "ftp://h/ /p", "‰∏ä", "‰∏ç\n‰∏â", "a‚Ä†//b", "ƒç//z", "\u2009", "x‰∏ä//y", "‰∏â/ x", "\u3000", "\x00", "a\x00", "\x00 b"}).Draw(t, "text"))
+			case "blockempty":
+				c.Runs = append(c.Runs, "")
+			case "blockdoc":
+				c.Runs = append(c.Runs, rapid.SampledFrom([]string{"", " note", "\n * @param x the x\n", " {$x}", "*", "\n * multi\n * line\n"}).Draw(t, "cmt"))
 			case "blocktight":
 				c.Runs = append(c.Runs, rapid.SampledFrom([]string{"", "*", "**", "***", "****", " x*", " x **", "/", "/*", " * / *", "*\n*"}).Draw(t, "cmt"))
 			case "line", "line-cr", "line-crlf":
@@ -302,6 +377,14 @@ func genC15(t *rapid.T) C15Case {
 				c.Runs = append(c.Runs, rapid.SampledFrom([]string{"", " note", "\n multi\n line\n", " {$x} {/if}", " // inner", " * stars *"}).Draw(t, "cmt"))
 			}
 			c.Kinds = append(c.Kinds, k)
+		}
+	case 8:
+		c.Level = "L2b"
+		c.Kinds = []string{c15Forms[rapid.IntRange(0, len(c15Forms)-1).Draw(t, "form")].name}
+		c.Runs = []string{
+			rapid.SampledFrom([]string{"yes", "a ", "\n  b", "x\n", "", " q  ", "<b>"}).Draw(t, "inner"),
+			rapid.SampledFrom([]string{"/* CMT */", " // CMT\n", "/* CMT\n more */", "\n// CMT\n", " /* CMT */ ", "\n  // CMT\n  ", "/* CMT *//* CMT */", "", "/**/", "/** CMT */", " /** CMT\n * @param x\n */"}).Draw(t, "cmt"),
+			rapid.SampledFrom([]string{" done", "\t  end", "  b c ", "x", " \n y", "  ", " ", "\tz", " <i>", "\n", " a\n"}).Draw(t, "after"),
 		}
 	default:
 		c.Level = "L3"
@@ -313,6 +396,14 @@ func genC15(t *rapid.T) C15Case {
 			var b strings.Builder
 			for j, m := 0, rapid.IntRange(0, 12).Draw(t, "len"); j < m; j++ {
 				b.WriteString(rapid.SampledFrom([]string{"a", " ", "\n", "\t", "{", "}", "{$x}", "//", "/*", "*/", "<", "{/if}", "{literal}", "√©", "  ", "\r\n", "{{", "}}"}).Draw(t, "ch"))
+			}
+			if rapid.IntRange(0, 2).Draw(t, "dbl") == 0 {
+				var d strings.Builder
+				for j, m := 0, rapid.IntRange(0, 8).Draw(t, "dlen"); j < m; j++ {
+					d.WriteString(rapid.SampledFrom([]string{"a", " ", "\n", "{/literal}", "{literal}", "{", "}", "{$x}", "/literal}", "{/literal", "√©", "{{literal}}"}).Draw(t, "dch"))
+				}
+				c.Runs = append(c.Runs, "dbl:"+strings.ReplaceAll(d.String(), "{{/literal}}", "{{/ literal}}"))
+				continue
 			}
 			c.Runs = append(c.Runs, b.String())
 		}
